@@ -124,7 +124,7 @@ func (lc *lineCache) cutOK(c hx.Cut) bool {
 func movesOf(a hx.Args, from, n int) []move.Move {
 	ms := make([]move.Move, n)
 	for k := range ms {
-		ms[k] = move.Move(a.U64(from + k))
+		ms[k] = hx.U2M(a.U64(from + k))
 	}
 	return ms
 }
@@ -157,7 +157,7 @@ func mkseqWalkOK(b *board.Board, ops []uint64) bool {
 				}
 				stack = append(stack, seqFrame{null: true, r: b.MakeNullMove()})
 			default:
-				m := move.Move(op)
+				m := hx.U2M(uint64(op))
 				if op >= 0x10000 || len(stack) >= 40 || !hasMove(posgen.Pseudo(b), m) {
 					return false
 				}
@@ -511,7 +511,7 @@ func describeC10(a hx.Args) string {
 	var sb strings.Builder
 	fmt.Fprintf(&sb, "fen %s restart-at %d moves", b.FEN(), a.Int(i))
 	for k := 0; k < a.Int(i+1) && i+2+k < a.Len(); k++ {
-		sb.WriteString(" " + move.Move(a.U64(i+2+k)).String())
+		sb.WriteString(" " + hx.U2M(a.U64(i+2+k)).String())
 	}
 	return sb.String()
 }
@@ -1125,7 +1125,7 @@ func c16hParse(in string) (ops []c16hOp, tail []string, a hx.Args, ok bool) {
 			}
 			var sb strings.Builder
 			for j := 0; j < n; j++ {
-				fmt.Fprintf(&sb, " %s:%d", c16MoveStr(move.Move(a.U64(q+10+4*j))), a.I64(q+13+4*j))
+				fmt.Fprintf(&sb, " %s:%d", c16MoveStr(hx.U2M(a.U64(q+10+4*j))), a.I64(q+13+4*j))
 			}
 			d = fmt.Sprintf("FailHigh(d=%d stack=%s moves=%s)", a.I64(q+1), c16hStackStr(a, q+3), sb.String())
 		case 1:
@@ -1146,7 +1146,7 @@ func c16hParse(in string) (ops []c16hOp, tail []string, a hx.Args, ok bool) {
 			}
 			var sb strings.Builder
 			for j := 0; j < n; j++ {
-				sb.WriteString(" " + c16MoveStr(move.Move(a.U64(q+9+2*j))))
+				sb.WriteString(" " + c16MoveStr(hx.U2M(a.U64(q+9+2*j))))
 			}
 			d = fmt.Sprintf("RankQuiet(stack=%s) on%s", c16hStackStr(a, q+2), sb.String())
 		}
